@@ -148,6 +148,7 @@ class XorEncodedFile(io.RawIOBase):
         try:
             self.fh.seek(-4, io.SEEK_CUR)
             nonce = self.fh.read(4)
+            self.fh.seek(pos)
         except OSError:
             nonce = b"\x00\x00\x00\x00"
         if pos < self.nonce_offset + 12:
